@@ -69,7 +69,12 @@ package ice
 // The buffered write path forwards only whole frames: what it hands to the TCP
 // connection is exactly what one error-free read of the packet buffer returned.
 //@ func (*bufferedConn).writeProcess
-//@   props C14
+//@   props C14 C15
+//@   ghostvar eof bool = false
+//@   ghostvar flag int = 0
+//@   site call LoadInt32#1 ghost flag := result
+//@   site call Is#1 ghost eof := result
+//@   ensures C14 C15 the-writer-stops-only-at-end-of-stream-or-close: eof || flag != 0
 //@   ghostvar readOK bool = false
 //@   ghostvar got int = 0
 //@   site call Read#1 ghost readOK := result1 == nil
